@@ -7,13 +7,6 @@ import re
 
 ROOT = os.path.dirname(os.path.dirname(os.path.abspath(__file__)))
 NOTES = {
-    "C09-H": "not detected - and not reachable: the change only matters when a transition that was cancelled (critical hook at before_/"
-             "leave_) is tried AGAIN and goes through; on this tree no caller of TryTransition ever retries: ControlEnvironment follows a "
-             "failed request with GO_ERROR (ERROR admits only RECOVER, which nothing can issue), DestroyEnvironment follows a failed "
-             "STOP/RESET with a forced teardown, the auto-stop timer and the task-failure handler go to ERROR. What the change does on the "
-             "reachable paths - cancel the calls pending at after_<event> a little earlier than teardown would - is what teardown does "
-             "anyway (the pendingcalls probe sees no blocked call goroutine either way). Only the package-internal demonstration calls "
-             "TryTransition twice",
     "C07-F": "not detected - outside what the property and the check cover: the change is in the FILE-backend counter (runcounter.txt), which "
              "the code itself marks as an unsafe check-and-set used only without Consul; the property's anchors and C07's assumptions name the "
              "Consul key as the shared counter (DESIGN C07, assumption list of the evidence)",
